@@ -45,7 +45,7 @@ def oracle(ctx, seeds=None):
         ok, msh = impl.guarded(cfg1d.make_mesh, md)
         if not ok:
             res.fail('mesh:raised', msh, dict(mesh=md)); continue
-        num = cfg1d.make_scheme(sch)
+        num = cfg1d.used_scheme(cfg1d.make_scheme(sch), msh)
         A, B = float(rng.normal() * 3), float(rng.normal() * 3)
         if i % 3 == 0:
             B = 0.0
@@ -128,14 +128,19 @@ def oracle(ctx, seeds=None):
         elif np.max(np.abs(S @ v - rv)) > 1e-10 * abs(a) * n / L * 4 * (np.max(np.abs(v)) + 1):
             res.fail('stencil/%s:random-data' % name, "rhs on random data differs from stencil", rp)
     # ---- 2D: the same stencil along each direction (data varying along one direction only)
-    for i in range(ctx.n(24, 300)):
+    for i in range(ctx.n(36, 400)):
         kap = float(rng.choice([-1.0, 0.0, 1.0 / 3.0, 0.5, 1.0])); first = (i % 4 == 0)
         nx, ny = int(rng.integers(1, 7)), int(rng.integers(1, 7)); lx, ly = float(rng.uniform(0.5, 3)), float(rng.uniform(0.5, 3))
         msh = impl.mesh2d.mesh2d(nx, ny, lx, ly)
         mod = impl.euler.euler2d()
         num = impl.xnum.extrapol2d1() if first else impl.xnum.extrapol2dk(kap)
         per = {'type': 'per'}
-        disc = impl.modeldisc.fvm2dcart(mod, msh, num, {'left': per, 'right': per, 'top': per, 'bottom': per}, numflux='centered')
+        # all periodic, or periodic along one direction only with walls / supersonic outlets on the other pair of sides
+        # (there the boundary-face gradient is zero: one-sided stencil, C11b)
+        opn = [{'type': 'sym'}, {'type': 'outsup'}][(i // 3) % 2]
+        perx, pery = (i % 3 != 2), (i % 3 != 1)
+        disc = impl.modeldisc.fvm2dcart(mod, msh, num, {'left': per if perx else dict(opn), 'right': per if perx else dict(opn),
+                                                         'top': per if pery else dict(opn), 'bottom': per if pery else dict(opn)}, numflux='centered')
         u = rng.normal(size=nx * ny)
         W = [2.0 + 0.1 * u, np.vstack([0.1 * u, -0.2 * u]), 1.0 + 0.05 * u]
         f = impl.field.fdata(mod, msh, mod.prim2cons(W))
@@ -144,8 +149,8 @@ def oracle(ctx, seeds=None):
             disc.cons2prim(); disc.calc_grad(); disc.calc_bc_grad(); disc.interp_face()
             return [np.array(x, dtype=float) for x in disc.pL], [np.array(x, dtype=float) for x in disc.pR], [np.array(x, dtype=float) for x in disc.pdata]
         ok, out = impl.guarded(run)
-        res.case(('2d-stencil', first, kap, min(nx, 3), min(ny, 3)))
-        rp = dict(kappa=kap, first_order=first, nx=nx, ny=ny)
+        res.case(('2d-stencil', first, kap, min(nx, 3), min(ny, 3), perx, pery))
+        rp = dict(kappa=kap, first_order=first, nx=nx, ny=ny, periodic_x=perx, periodic_y=pery, open_sides=opn['type'])
         if not ok:
             res.fail('2d-stencil:raised', out, rp); continue
         pL, pR, pd = out
@@ -160,16 +165,18 @@ def oracle(ctx, seeds=None):
                 for ii in range(1, nx):
                     fidx = j * (nx + 1) + ii
                     c = lambda k: d[j, k % nx]
-                    Lx = c(ii - 1) + km * (c(ii - 1) - c(ii - 2)) + kp * (c(ii) - c(ii - 1))
-                    Rx = c(ii) - km * (c(ii + 1) - c(ii)) - kp * (c(ii) - c(ii - 1))
+                    g = lambda f_: (c(f_) - c(f_ - 1)) if (perx or 0 < f_ < nx) else 0.0      # face difference, zero at an open boundary face
+                    Lx = c(ii - 1) + km * g(ii - 1) + kp * g(ii)
+                    Rx = c(ii) - km * g(ii + 1) - kp * g(ii)
                     if abs(fL[fidx] - Lx) > 1e-12 or abs(fR[fidx] - Rx) > 1e-12:
                         badk = ('x', fname, j, ii)
             for jj in range(1, ny):
                 for ii in range(nx):
                     fidx = fs + jj * nx + ii
                     c = lambda k: d[k % ny, ii]
-                    Ly = c(jj - 1) + km * (c(jj - 1) - c(jj - 2)) + kp * (c(jj) - c(jj - 1))
-                    Ry = c(jj) - km * (c(jj + 1) - c(jj)) - kp * (c(jj) - c(jj - 1))
+                    g = lambda f_: (c(f_) - c(f_ - 1)) if (pery or 0 < f_ < ny) else 0.0
+                    Ly = c(jj - 1) + km * g(jj - 1) + kp * g(jj)
+                    Ry = c(jj) - km * g(jj + 1) - kp * g(jj)
                     if abs(fL[fidx] - Ly) > 1e-12 or abs(fR[fidx] - Ry) > 1e-12:
                         badk = ('y', fname, jj, ii)
         if badk:
